@@ -11,7 +11,7 @@ from .ops import lift, liftable, is_val
 LIST_METHODS = {'append', 'extend', 'insert', 'pop', 'popleft', 'index', 'sort', 'copy', 'reverse', 'appendleft'}
 DICT_METHODS = {'get', 'setdefault', 'items', 'keys', 'values', 'pop', 'update', 'copy', 'clear'}
 SET_METHODS = {'add', 'discard', 'remove', 'update', 'pop', 'copy', 'clear'}
-STR_METHODS = {'find', 'count', 'split', 'join', 'format', 'isalpha', 'isdigit', 'isnumeric', 'islower',
+STR_METHODS = {'isascii', 'find', 'count', 'split', 'join', 'format', 'isalpha', 'isdigit', 'isnumeric', 'islower',
                'capitalize', 'startswith', 'endswith', 'lower', 'upper', 'strip', 'replace', 'index', 'isupper'}
 
 
@@ -143,6 +143,9 @@ class DictIter(IterVal):
         a = Value.a(self.ref)
         key = z3.Select(z3.Select(run.field('dict.keys'), a), k)
         run.assume(z3.Select(z3.Select(run.field('dict.has'), a), key))
+        kt = run.dict_key_type.get(z3.simplify(a).sexpr())
+        if kt:
+            run.assume(run.type_constraint(key, kt))
         if self.mode == 'keys':
             return key
         val = z3.Select(z3.Select(run.field('dict.val'), a), key)
@@ -252,8 +255,19 @@ class CallsMixin:
         return [z3.simplify(z3.Select(arr, i)) for i in range(k)]
 
     def ref_get_item(self, obj, idx, node):
-        kind = self.ref_kind(obj, ['list', 'deque', 'dict'])
         a = Value.a(obj)
+        if self.spec_mode:
+            c = self.cls_of(obj)
+            if not z3.is_int_value(c):
+                it = static_tag(idx)
+                if it == 'VStr' or it == 'VTup':
+                    return z3.Select(z3.Select(self.field('dict.val'), a), idx)
+                if it == 'VInt':
+                    return z3.If(c == 2, z3.Select(z3.Select(self.field('dict.val'), a), idx),
+                                 z3.Select(z3.Select(self.field('list.items'), a), Value.i(idx)))
+                return z3.If(c == 2, z3.Select(z3.Select(self.field('dict.val'), a), idx),
+                             z3.Select(z3.Select(self.field('list.items'), a), Value.i(idx)))
+        kind = self.ref_kind(obj, ['list', 'deque', 'dict'])
         if kind in ('list', 'deque'):
             n = self.list_len(obj)
             i = self.as_int(idx)
@@ -305,8 +319,15 @@ class CallsMixin:
                                          z3.Store(z3.Select(self.field('dict.val'), a), k, v))
 
     def ref_contains(self, container, item, node):
-        kind = self.ref_kind(container, ['list', 'deque', 'dict', 'set'])
         a = Value.a(container)
+        if self.spec_mode:
+            c = self.cls_of(container)
+            if not z3.is_int_value(c):
+                j = z3.Int('j!in%d' % self._qcount())
+                in_list = z3.Exists([j], z3.And(j >= 0, j < z3.Select(self.field('list.len'), a),
+                                                z3.Select(z3.Select(self.field('list.items'), a), j) == item))
+                return z3.If(z3.Or(c == 2, c == 3), z3.Select(z3.Select(self.field('dict.has'), a), item), in_list)
+        kind = self.ref_kind(container, ['list', 'deque', 'dict', 'set'])
         if kind in ('dict', 'set'):
             return z3.Select(z3.Select(self.field('dict.has'), a), item)
         if kind in ('list', 'deque'):
@@ -460,10 +481,16 @@ class CallsMixin:
 
     def write_global(self, key, v, node):
         if self.entry is not None and not self.spec_mode:
-            allowed = getattr(self, 'mod_globals', set())
-            if key not in allowed:
+            allowed = set()
+            c = self.frames[0].contract
+            for cl in c.of('modifies_global'):
+                allowed |= set(cl.extra['names'])
+            if key.split('::')[1] not in allowed:
                 self.oblige(z3.BoolVal(False), 'frame', 'frame-global:%s' % key, node)
         self.heap['glob'] = z3.Store(self.field('glob'), self.global_addr(key), v)
+        # every memo table whose entries depend on this global is now possibly stale
+        for fkey in self.eng.consts.get('MEMO_DEPENDS', {}).get(key, []):
+            self.heap['memo'] = z3.Store(self.field('memo'), self.memo_addr(fkey), VInt(1))
 
     # ------------------------------------------------------------------ iteration
     def make_iter(self, node):
@@ -1000,11 +1027,18 @@ class CallsMixin:
         return z3.Or([self.type_constraint(v, n) for n in names])
 
     def sp_typed(self, node):
-        v = self.val(self.ev(node.args[0]))
+        v = self.ev(node.args[0])
+        if isinstance(v, Const) and not liftable(v.py):
+            from . import monitor
+            return z3.BoolVal(monitor.typed(v.py, ast.literal_eval(node.args[1]).split('[')[0]))
+        v = self.val(v)
         return self.type_constraint(v, ast.literal_eval(node.args[1]))
 
     def sp_fresh(self, node):
-        v = self.val(self.ev(node.args[0]))
+        v = self.ev(node.args[0])
+        if isinstance(v, Const):
+            return z3.BoolVal(False)      # a module-level object is never freshly allocated
+        v = self.val(v)
         base = self.old.alloc if self.old is not None else self.entry.alloc
         return z3.And(Value.is_VRef(v), Value.a(v) >= base, Value.a(v) < self.alloc)
 
@@ -1018,6 +1052,48 @@ class CallsMixin:
 
     def sp_mod(self, node):
         return VInt(self.as_int(self.ev(node.args[0])) % self.as_int(self.ev(node.args[1])))
+
+    def sp_memo_clean(self, node):
+        """memo_clean("relpath::func"): the lru_cache table of func holds no entry computed under another table."""
+        key = ast.literal_eval(node.args[0])
+        return z3.Select(self.field('memo'), self.memo_addr(key)) == VInt(0)
+
+    def sp_dict_eq(self, node):
+        """dict_eq(a, b): same key set and same values (a heap dict; b heap dict or a constant dict)."""
+        a = self.ev(node.args[0])
+        b = self.ev(node.args[1])
+        if isinstance(a, Const):
+            if isinstance(b, Const):
+                return z3.BoolVal(a.py == b.py)
+            a, b = b, a
+        a = self.val(a)
+        aa = Value.a(a)
+        has_a = z3.Select(self.field('dict.has'), aa)
+        val_a = z3.Select(self.field('dict.val'), aa)
+        k = z3.Const('k!deq%d' % self._qcount(), Value)
+        if isinstance(b, Const):
+            items = list(b.py.items())
+            member = z3.Or([k == lift(x) for x, _ in items]) if items else z3.BoolVal(False)
+            conj = [z3.ForAll([k], z3.Select(has_a, k) == member)]
+            for x, y in items:
+                conj.append(z3.Select(val_a, lift(x)) == self.const_val(y))
+            conj.append(z3.Select(self.field('dict.n'), aa) == len(items))
+            return z3.And(conj)
+        b = self.val(b)
+        bb = Value.a(b)
+        has_b = z3.Select(self.field('dict.has'), bb)
+        val_b = z3.Select(self.field('dict.val'), bb)
+        return z3.And(z3.ForAll([k], z3.Select(has_a, k) == z3.Select(has_b, k)),
+                      z3.ForAll([k], z3.Implies(z3.Select(has_a, k), z3.Select(val_a, k) == z3.Select(val_b, k))),
+                      z3.Select(self.field('dict.n'), aa) == z3.Select(self.field('dict.n'), bb))
+
+    def sp_same_dict_state(self, node):
+        """same_dict_state(d): the dict object d has exactly the contents it had in the old state."""
+        a = Value.a(self.val(self.ev(node.args[0])))
+        conj = []
+        for f in ('dict.has', 'dict.val', 'dict.n'):
+            conj.append(z3.Select(self.field(f), a) == z3.Select(self.old.heap.get(f, self.field(f)), a))
+        return z3.And(conj)
 
     def sp_raw(self, node):
         """raw("z3-python expression") escape hatch is deliberately not provided."""
@@ -1343,6 +1419,29 @@ class CallsMixin:
         n = z3.Length(s)
         st = z3.If(start < 0, z3.If(start + n < 0, z3.IntVal(0), start + n), start)
         return VInt(z3.If(st > n, z3.IntVal(-1), z3.IndexOf(s, sub, st)))
+
+    def _str_pred(self, name, b):
+        f = z3.Function('str_' + name, S, B)
+        x = Value.s(b.self_val)
+        if name != 'isascii':
+            # trusted: ''.isdigit() / ''.isnumeric() / ''.isalpha() / ''.islower() are False in CPython
+            self.assume(z3.Implies(f(x), z3.Length(x) > 0))
+        return VBool(f(x))
+
+    def bi_str_isnumeric(self, b, args, kwargs, node):
+        return self._str_pred('isnumeric', b)
+
+    def bi_str_isdigit(self, b, args, kwargs, node):
+        return self._str_pred('isdigit', b)
+
+    def bi_str_isascii(self, b, args, kwargs, node):
+        return self._str_pred('isascii', b)
+
+    def bi_str_isalpha(self, b, args, kwargs, node):
+        return self._str_pred('isalpha', b)
+
+    def bi_str_islower(self, b, args, kwargs, node):
+        return self._str_pred('islower', b)
 
     def bi_str_startswith(self, b, args, kwargs, node):
         return VBool(z3.PrefixOf(Value.s(self.val(args[0])), Value.s(b.self_val)))
